@@ -435,12 +435,12 @@ inductive FsKind
   | missing | file | dir | link
 deriving Repr, DecidableEq
 
-/-- index of the last '/' -/
-def lastSlash (s : Bytes) : Option Nat :=
-  let r := s.reverse
-  match findIdx (· = slash) r 0 with
-  | none => none
-  | some k => some (s.length - 1 - k)
+/-- index of the last '/' before position `n` (strrchr) -/
+def lastSlashBefore (s : Bytes) : Nat → Option Nat
+  | 0 => none
+  | k + 1 => if s.getD k 0 = slash then some k else lastSlashBefore s k
+
+def lastSlash (s : Bytes) : Option Nat := lastSlashBefore s s.length
 
 def symLoop (fs : Bytes → FsKind) (cur : Bytes) : Int :=
   match fs cur with
@@ -448,7 +448,7 @@ def symLoop (fs : Bytes → FsKind) (cur : Bytes) : Int :=
   | .missing => -1
   | _ =>
     match lastSlash cur with
-    | some j => if h : 0 < j ∧ j < cur.length then symLoop fs (cur.take j) else 0
+    | some j => if _h : 0 < j ∧ j < cur.length then symLoop fs (cur.take j) else 0
     | none => 0
 termination_by cur.length
 decreasing_by simp only [List.length_take]; omega
